@@ -26,7 +26,9 @@ def _impl(n, pk, tr, ri, de):
             warnings.simplefilter('ignore')
             # index containers as int64 arrays, int32 arrays or plain python lists
             mk = [lambda v: np.array(v, dtype=int), lambda v: np.array(v, dtype=np.int32), lambda v: [int(x) for x in v]][(n + len(pk) + len(tr)) % 3]
-            pha = extrema_interpolated_phase(np.zeros(n), mk(pk), mk(tr), None if ri is None else mk(ri), None if de is None else mk(de))
+            # the recording itself (only its length matters): float64 / int16 / float32 array or a python list of ints
+            sig = [np.zeros(n), np.zeros(n, dtype=np.int16), np.zeros(n, dtype=np.float32), [0] * n][(n + 3 * len(pk) + len(tr)) % 4]
+            pha = extrema_interpolated_phase(sig, mk(pk), mk(tr), None if ri is None else mk(ri), None if de is None else mk(de))
         return ['ok', [float(x) / (math.pi / 2) for x in pha]]
     except Exception as e:
         return ['err', type(e).__name__]
@@ -66,6 +68,8 @@ def generate(ctx):
                     is_rise = ((j % 2 == 0) != fp)      # flank starts at a trough
                     (ri if is_rise else de).append(m)
                 cases.append(dict(n=n, pk=pk, tr=tr, ri=ri, de=de)); cnt += 1
+                if mode == 'rand':      # only ONE kind of midpoint supplied
+                    cases.append(dict(n=n, pk=pk, tr=tr, ri=ri, de=None)); cases.append(dict(n=n, pk=pk, tr=tr, ri=None, de=de)); cnt += 2
     ctx.notes['exhaustive_scope'] = 'all alternating extrema placements with gaps >= 2 on arrays of length 3..%d x midpoint patterns {none, start, end, middle, random} (%d cases)' % (N, cnt)
     from bycycle.cyclepoints import find_extrema, find_zerox
     for i in range(ctx.scale(150, 1500)):
@@ -110,7 +114,7 @@ def evaluate(ctx, cases):
             corr_ok = model[0] == 'ok' and len(model[1]) == len(impl[1]) and all(
                 (a == 'nan' and b != b) or (a != 'nan' and b == b and abs(Fraction(a) - Fraction(float(b))) <= tol) for a, b in zip(model[1], impl[1]))
             info = {} if (judge_ok and corr_ok) else dict(impl=impl[1][:40], model=(model[1][:40] if model[0] == 'ok' else model))
-        ctx.hist('midpoints', 'given' if c['ri'] is not None else 'none')
+        ctx.hist('midpoints', 'both' if (c['ri'] is not None and c['de'] is not None) else 'none' if (c['ri'] is None and c['de'] is None) else 'one kind only')
         ctx.hist('last_point_distance_from_end', min(3, c['n'] - 1 - max(c['pk'] + c['tr'] + (c['ri'] or []) + (c['de'] or []))))
         out.append(Result(c, judge_ok=judge_ok, corr_ok=corr_ok, sig=repr(sorted(c.items())), nontrivial=bool(c['pk'] and c['tr']), info=info))
     return out
